@@ -387,6 +387,9 @@ Section Interp.
             end))))
       | GEMakeMap => k [SVFreshMap] w
       | GEIndex _ _ => GStuck "an expression of the third fragment (Lib/GoStmt.v): no meaning for the set's state machine"
+      | GEAdd _ _ | GEGt _ _ => GStuck "an expression of the fourth fragment (Lib/GoStmt.v): no meaning for the set's state machine"
+      | GETypeAssertOk _ _ | GEAppend _ _ | GEEmptySlice _ | GERem _ _ =>
+          GStuck "an expression of the fifth fragment (Lib/GoStmt.v): no meaning for the set's state machine"
       | GEUnknown src => GNotUnderstood src
       end.
 
@@ -519,6 +522,8 @@ Section Interp.
           end
       | GSVar _ _ | GSRangeSet _ _ _ _ | GSResults _ =>
           GStuck "a statement of the third fragment (Lib/GoStmt.v): no meaning for the set's state machine"
+      | GSBreak | GSIncField _ _ =>
+          GStuck "a statement of the fifth fragment (Lib/GoStmt.v): no meaning for the set's state machine"
       | GSUnknown src => GNotUnderstood src
       end.
 
